@@ -1023,13 +1023,13 @@ func (w *World) createArchetype(node *archNode, target Entity, forStorage bool) 
 	layouts := capacityNonZero(w.registry.Count(), int(layoutChunkSize))
 
 	if node.HasRelation {
-		arch = node.CreateArchetype(uint8(layouts), target)
+		arch = node.CreateArchetype(layouts, target)
 	} else {
 		w.archetypes.Add(archetype{})
 		w.archetypeData.Add(archetypeData{})
 		archIndex := w.archetypes.Len() - 1
 		arch = w.archetypes.Get(archIndex)
-		arch.Init(node, w.archetypeData.Get(archIndex), archIndex, forStorage, uint8(layouts), Entity{})
+		arch.Init(node, w.archetypeData.Get(archIndex), archIndex, forStorage, layouts, Entity{})
 		node.SetArchetype(arch)
 	}
 	w.filterCache.addArchetype(arch)
@@ -1103,7 +1103,7 @@ func (w *World) removeArchetype(arch *archetype) {
 }
 
 // Extend the number of access layouts in archetypes.
-func (w *World) extendArchetypeLayouts(count uint8) {
+func (w *World) extendArchetypeLayouts(count int) {
 	len := w.nodes.Len()
 	var i int32
 	for i = 0; i < len; i++ {
@@ -1120,7 +1120,7 @@ func (w *World) componentID(tp reflect.Type) ID {
 			panic("attempt to register a new component in a locked world")
 		}
 		if id > 0 && id%layoutChunkSize == 0 {
-			w.extendArchetypeLayouts(id + layoutChunkSize)
+			w.extendArchetypeLayouts(int(id) + int(layoutChunkSize))
 		}
 	}
 	return ID{id: id}
